@@ -216,6 +216,12 @@ Proof.
     try (rewrite app_length; simpl; lia).
 Qed.
 
+Lemma st_le_add_cells : forall st vs, st_le st (add_cells st vs).
+Proof.
+  intros; repeat split; simpl; auto; try solve [exists []; simpl; rewrite ?app_nil_r; reflexivity].
+  rewrite app_length; lia.
+Qed.
+
 Lemma new_arr_le : forall st cs a st', new_arr st cs = (a, st') -> st_le st st'.
 Proof. intros st cs a st' H. generalize (st_le_new_arr st cs). rewrite H. auto. Qed.
 Lemma new_rec_le : forall st cs a st', new_rec st cs = (a, st') -> st_le st st'.
@@ -291,8 +297,7 @@ Proof.
       destruct l as [|[x a|x a|fd|a] t];
         autorewrite with evaleq in *; unfold alloc in *;
         repeat grow_step; repeat (grow_leaf IHe IHi IHh); chain.
-      eapply st_le_trans; [|eassumption].
-      eapply st_le_trans; [apply (st_le_alloc st (CInt 0))|apply st_le_set_cell].
+      eapply st_le_trans; [|eassumption]. apply st_le_add_cells.
     + intros e st ex cs call r st' H.
       destruct cs as [|[ex' body] t];
         autorewrite with evaleq in *;
@@ -569,7 +574,38 @@ Theorem lambda_captures_env : forall k e st fd,
   eval genv (S k) e st (ELambda fd) = (ROk (length (cells st)), with_new_cell st (CFun fd e)).
 Proof. reflexivity. Qed.
 
+(* a maximal run of adjacent function items is bound together: one new cell per function, in
+   order, each holding the closure over the SAME environment e', which binds all of them *)
+Theorem func_run_captures_env : forall k e st fd rest last,
+  let fds := fd :: run_funcs rest in
+  let c0 := length (cells st) in
+  let e' := func_env fds c0 e in
+  exists st1,
+    eval_items genv (S k) e st (IFunc fd :: rest) last =
+      eval_items genv k e' st1 (run_rest rest) (Some (length (run_funcs rest) + c0)) /\
+    (forall i f, nth_error fds i = Some f -> get_cell st1 (c0 + i) = Some (CFun f e')) /\
+    (forall c', c' < c0 -> get_cell st1 c' = get_cell st c') /\
+    length (cells st1) = c0 + length fds /\
+    arrs st1 = arrs st /\ recs st1 = recs st /\ out st1 = out st.
+Proof.
+  intros k e st fd rest last fds c0 e'. exists (run_state fds e st).
+  split; [rewrite eval_items_IFunc; reflexivity|].
+  split; [intros i f H; apply (run_state_get_new fds e st i f H)|].
+  split; [intros c' H; apply run_state_get_old; exact H|].
+  rewrite run_state_cells, app_length, map_length. auto.
+Qed.
+
+(* what the names of the run denote in e' *)
+Theorem func_run_names : forall fds c e,
+  (forall i f, nth_error fds i = Some f ->
+     (forall j g, i < j -> nth_error fds j = Some g -> fd_name g <> fd_name f) ->
+     lookup (fd_name f) (func_env fds c e) = Some (c + i)) /\
+  (forall x, (forall f, In f fds -> fd_name f <> x) -> lookup x (func_env fds c e) = lookup x e).
+Proof. intros; split; [apply func_env_nth|apply func_env_other]. Qed.
+
+(* a function item that is not followed by another function item *)
 Theorem func_item_captures_env : forall k e st fd rest last,
+  run_funcs rest = [] ->
   let c := length (cells st) in
   let e' := (fd_name fd, c) :: e in
   exists st1,
@@ -578,10 +614,10 @@ Theorem func_item_captures_env : forall k e st fd rest last,
     (forall c', c' <> c -> get_cell st1 c' = get_cell st c') /\
     arrs st1 = arrs st /\ recs st1 = recs st /\ out st1 = out st.
 Proof.
-  intros k e st fd rest last c e'. eexists. split; [rewrite eval_items_IFunc; reflexivity|].
-  unfold get_cell, set_cell; simpl. repeat split; auto.
-  - apply nth_error_list_upd_same. rewrite app_length; simpl; lia.
-  - intros c' Hc. rewrite nth_error_list_upd_other by auto.
+  intros k e st fd rest last Hr c e'. eexists. split; [rewrite eval_items_IFunc1 by exact Hr; reflexivity|].
+  unfold get_cell, add_cells; simpl. repeat split; auto.
+  - rewrite nth_error_app2, Nat.sub_diag by lia. reflexivity.
+  - intros c' Hc.
     destruct (Nat.lt_ge_cases c' (length (cells st))) as [Hlt|Hge].
     + apply nth_error_app1; auto.
     + transitivity (@None cellval); [|symmetry]; apply nth_error_None; auto.
